@@ -302,8 +302,15 @@ def handle (st : St) (line : String) : IO St := do
         | none, none => true
         | some g, some e => g.length == e.length && e.all (fun p => Riti.alookup g p.1 == some p.2)
         | _, _ => false
-      if ok then return bump st (if got.isSome then "json-reader-accepts-like-serde" else "json-reader-rejects-like-serde")
-      else report st s!"MISMATCH case={st.caseName} line={st.lineNo} json-read: model {if got.isSome then "accepts" else "rejects"} serde_json {if want.isSome then "accepts" else "rejects"} (or the maps differ) bytes={hx}"
+      -- the SECOND model of the same typed reader (Model/JsonValue.stringMapOfFile: Value reader + typed conversion) must agree as well
+      let got2 : Option (List (List Char × List Char)) := match Riti.JsonValue.stringMapOfFile bytes with | .ok m => some m | .error _ => none
+      let ok2 := match got2, want with
+        | none, none => true
+        | some g, some e => g.length == e.length && e.all (fun p => Riti.alookup g p.1 == some p.2)
+        | _, _ => false
+      if ok && ok2 then return bump st (if got.isSome then "json-reader-accepts-like-serde" else "json-reader-rejects-like-serde")
+      else if !ok then report st s!"MISMATCH case={st.caseName} line={st.lineNo} json-read: model {if got.isSome then "accepts" else "rejects"} serde_json {if want.isSome then "accepts" else "rejects"} (or the maps differ) bytes={hx}"
+      else report st s!"MISMATCH case={st.caseName} line={st.lineNo} json-read: the typed reader of Model/JsonValue {if got2.isSome then "accepts" else "rejects"} serde_json {if want.isSome then "accepts" else "rejects"} (or the maps differ) bytes={hx}"
   | ["json-written", hx] =>
     -- … and for its printer: a file the engine wrote is byte for byte `printBytes` of the entries it contains
     match parseHex hx with
